@@ -5,7 +5,7 @@ import traceback
 
 import z3
 
-from .smt import And, Or, Not, Implies, check_sat, to_smt2, cvc5_check, TRUE, FALSE, const_bool
+from .smt import And, Or, Not, Implies, check_sat, prove, to_smt2, cvc5_check, TRUE, FALSE, const_bool
 from .values import NONE, SExc, Unsupported
 from .contracts import Ctx, REGISTRY
 from .exec import Executor, Oblig
@@ -147,7 +147,7 @@ def discharge(ob, timeout_s=10, use_cvc5=True, want_model=True):
     if ob.kind == "vacuous":
         return OResult(ob.name, ob.kind, ob.func, "vacuous", "z3", 0.0, note="contradictory precondition")
     assertions = list(ob.pc) + [Not(ob.goal)]
-    r, solver = check_sat(assertions, int(timeout_s * 1000))
+    r, solver = prove(assertions, int(timeout_s * 1000))
     if r == "unsat":
         return OResult(ob.name, ob.kind, ob.func, "discharged", "z3", time.time() - t0)
     smt2 = None
